@@ -16,6 +16,7 @@ k-th mutating call of an op), netdev / ipset / newnet (in-process fakes that
 can fail), the host port table, DNS.  See DESIGN.md 2.5, 2.6, C14, C16.
 """
 
+import errno
 import fnmatch
 import ipaddress
 import os
@@ -95,6 +96,51 @@ def rule_key(chain, rule):
             int(rule.dst_port), rule.new_ip, int(rule.new_port))
 
 
+class _PastNetwork(BaseException):
+    """run() reached the step after the network set-up (stubbed from here)."""
+
+
+def _stop_after_network(*_args, **_kwargs):
+    raise _PastNetwork()
+
+
+class _OtherClient:
+    """Client of a resource service that is not under test."""
+
+    def __init__(self, reply):
+        self._reply = reply
+
+    def put(self, _rsrc_id, _rsrc_data):
+        pass
+
+    def wait(self, _rsrc_id, timeout=None):
+        return dict(self._reply)
+
+    def get(self, _rsrc_id):
+        return dict(self._reply)
+
+    def delete(self, _rsrc_id):
+        pass
+
+
+class _OtherService:
+    """cgroup / localdisk / presence service: replies at once."""
+
+    def __init__(self, reply):
+        self._reply = reply
+
+    def make_client(self, _client_dir):
+        return _OtherClient(self._reply)
+
+
+class _NoImage:
+    """treadmill.runtime.linux.image of _run: never unpacked here."""
+
+    @staticmethod
+    def get_image(_tm_env, _manifest):
+        return None
+
+
 class _Lease:
     """Watchdog lease handed to RuleMgr.garbage_collect."""
 
@@ -127,6 +173,7 @@ class World:
                 'spec_recreate_refused', 'gc_with_live_and_dead',
                 'gc_reclaimed', 'gc_passes_preempted', 'gc_open_entries',
                 'gc_entry_taken_over_by_newcomer', 'gc_stat_unlink_windows',
+                'gc_pass_aborted_by_lookup_error',
                 'gc_entry_retaken_in_window', 'unlink_all_removed',
                 'unlink_all_skipped_foreign', 'net_requests',
                 'net_replies_ok', 'net_replies_error',
@@ -137,11 +184,11 @@ class World:
                 'order_permuted_listings', 'layout_with_symlinked_dirs'), 0)
             self.faults = dict.fromkeys((
                 'svc_killed_mid_request', 'svc_crash', 'command_failed',
-                'owner_vanished'), 0)
+                'owner_vanished', 'lookup_failed'), 0)
         else:
             self.probes = dict.fromkeys((
                 'svc_restarts', 'stale_requests_reclaimed',
-                'starts_ok', 'starts_not_ready', 'starts_failed',
+                'starts_ok', 'starts_failed',
                 'finishes_complete', 'finishes_repeated',
                 'finish_with_others_registered', 'finish_removed_entries',
                 'port_collisions', 'port_reused_after_death', 'ip_reused',
@@ -195,6 +242,9 @@ class World:
         self.apps_dir = self.tm_env.apps_dir
         self.proc_dir = os.path.join(tmroot, 'proc')
         os.makedirs(self.proc_dir)
+        self.tm_env.svc_cgroup = _OtherService({})
+        self.tm_env.svc_localdisk = _OtherService({'block_dev': '/dev/null'})
+        self.tm_env.svc_presence = _OtherService({})
         self.svc = self.tm_env.svc_network
         self.svc_dir = self.tm_env.svc_network_dir
         self.rsrc_dir = os.path.join(self.svc_dir, 'resources')
@@ -248,14 +298,19 @@ class World:
 
     def apply(self, op):
         self.clock.advance(1.0)
+        fault = op.get('stat_fault')
         self.seam.begin(order=op.get('ord', 0), crash_at=op.get('crash_at'),
-                        fail_at=op.get('fail_at'))
+                        fail_at=op.get('fail_at'),
+                        stat_fault=(fault['name'], fault['errno'])
+                        if fault else None)
         if op.get('ord'):
             self.probes['order_permuted_listings'] += 1
         try:
             getattr(self, 'op_' + op['op'])(op)
         finally:
-            if self.seam.failed:
+            if self.seam.stat_faults_fired:
+                self._bump(self.faults, 'lookup_failed')
+            elif self.seam.failed:
                 self.faults['command_failed'] += 1
             if self.seam.failed or self.seam.crashed:
                 self.faulted = True
@@ -434,12 +489,24 @@ class World:
             'during': during, 'op': op['op'], 'ran': 0}
         self.gc_pass['windows'] = windows
         self.seam.on_checkpoint = self._gc_checkpoint
+        aborted = False
         try:
             call()
+        except OSError as err:
+            # a pass that cannot look an owner up fails as a whole: a
+            # legitimate failed operation (what it decided before stands)
+            aborted = True
+            self.log.ev(op['op'], 'aborted', err.errno)
+            if not self.seam.stat_faults_fired:
+                self.fail('C14:gc-raised:%s' % kind,
+                          'garbage collection raised %r without an injected '
+                          'fault' % (err,))
+            else:
+                self.probes['gc_pass_aborted_by_lookup_error'] += 1
         finally:
             self.seam.on_checkpoint = None
             if self.violation is None:
-                self._gc_sync(final=True)
+                self._gc_sync(final=not aborted)
             if self.gc_pass['ran']:
                 self.probes['gc_passes_preempted'] += 1
                 self.nontrivial += 1
@@ -955,6 +1022,36 @@ class World:
                 self.unprocessed_del.discard(os.path.basename(path))
         self._netsvc_check(op, synced=False)
 
+    def wait_for_file(self, filename, timeout=None):
+        """Stands in for services._base_service.wait_for_file (inotify wait
+        with a real-time timeout): while a client waits, the network service
+        works; gives up when the service is down or idle."""
+        if timeout == 0:
+            return os.path.exists(filename)
+        seam = self.seam
+        saved = (seam.crash_at, seam.fail_at, seam.steps, seam.commands,
+                 seam.stat_fault, self.ipt.actor, self.sock.actor)
+        # the service is another process: the kill / failure points of the
+        # waiting process do not apply to it
+        seam.crash_at = seam.fail_at = seam.stat_fault = None
+        try:
+            for _ in range(200):
+                if os.path.exists(filename):
+                    return True
+                if self.impl is None or not (self.svc_pending() or
+                                             self._stale_links()):
+                    break
+                self.op_svc_step({'op': 'svc_step'})
+                if self.violation is not None:
+                    break
+            found = os.path.exists(filename)
+            if not found:
+                self.clock.advance(timeout or _base_service.DEFAULT_TIMEOUT)
+            return found
+        finally:
+            (seam.crash_at, seam.fail_at, seam.steps, seam.commands,
+             seam.stat_fault, self.ipt.actor, self.sock.actor) = saved
+
     def svc_pending(self):
         if self.impl is None:
             return False
@@ -1113,9 +1210,7 @@ class World:
         self.cont[name] = {'manifest': man, 'state': 'requested',
                            'finished': 0, 'data': data_dir, 'created': None,
                            'inst': man['name'], 'ports': []}
-        client = self._client(name)
-        if not man['shared_network']:
-            client.put(name, {'environment': man['environment']})
+        # the network request itself is made by runtime.linux._run.run()
 
     def op_c_start(self, op):
         name = op['name']
@@ -1124,6 +1219,8 @@ class World:
                 name not in self.owners:
             return
         man = _copy(cont['manifest'])
+        for key, value in (('memory', '100M'), ('cpu', 10), ('disk', '100M')):
+            man.setdefault(key, value)
         data_dir = cont['data']
         for other in self.cont.values():
             if other is not cont and other['inst'] == cont['inst'] and \
@@ -1139,31 +1236,32 @@ class World:
         sockets = []
         vip = None
         try:
-            # the network part of runtime.linux._run.run, in its order
             if man['shared_network']:
+                # run() would wait 15 min for a network reply it never asked
+                # for; the harness performs the remaining steps in its order
                 app_network = {'vip': None, 'veth': None, 'gateway': None,
                                'external_ip': EXT_IP}
-            else:
-                app_network = self._client(name).wait(name, timeout=0)
-            vip = app_network['vip']
-            man['network'] = app_network
-            man['vip'] = {'ip0': app_network['gateway'],
-                          'ip1': app_network['vip']}
-            sockets = runtime.allocate_network_ports(
-                app_network['external_ip'], man)
-            app = runtime.save_app(man, data_dir)
-            if not app.shared_network:
-                _run._unshare_network(self.tm_env, data_dir, app)
-            else:
+                man['network'] = app_network
+                man['vip'] = {'ip0': None, 'ip1': None}
+                sockets = runtime.allocate_network_ports(EXT_IP, man)
+                runtime.save_app(man, data_dir)
                 for sock in sockets:
                     sock.close()
+            else:
+                # the real run(): resource requests, wait for the replies
+                # (the network service works while the start waits), port
+                # allocation, save_app and _unshare_network in the code's
+                # own order; it is stopped where it would create the root
+                # volume (_create_root_dir raises _PastNetwork)
+                try:
+                    _run.run(self.tm_env, None, data_dir, man)
+                    raise simkit.HarnessError('run() went past the stub')
+                except _PastNetwork:
+                    pass
+                vip = (man.get('network') or {}).get('vip')
             cont['state'] = 'started'
             self.probes['starts_ok'] += 1
             self.log.ev('c_start', name, 'ok')
-        except _base_service.ResourceServiceTimeoutError:
-            self.probes['starts_not_ready'] += 1
-            self.log.ev('c_start', name, 'not-ready')
-            return
         except simkit.SimCrash:
             cont['state'] = 'killed'
             self.faults['start_killed'] += 1
@@ -1192,6 +1290,8 @@ class World:
                                if who == name)
         if any(p in self.dead_ports for p in cont['ports']):
             self.probes['port_reused_after_death'] += 1
+        if vip is None and isinstance(man.get('network'), dict):
+            vip = man['network'].get('vip')
         if vip is not None:
             if self.ever_ips.get(vip, name) != name:
                 self.probes['ip_reused'] += 1
@@ -1505,6 +1605,8 @@ class Generator:
         biased to: a newcomer takes an entry that exists / was just
         released (by its dead or live holder)."""
         rng = self.rng
+        if self.frng.random() < self.config.get('p_stat_fault', 0.0):
+            return self._with_stat_fault(world, kind, op)
         if rng.random() >= self.config.get('p_during', 0.0):
             return op
         if kind == 'vip':
@@ -1596,6 +1698,33 @@ class Generator:
             return op
         op['during'] = [{'at': rng.randint(1, max(1, min(len(ref), 3))),
                          'ops': nested}]
+        return op
+
+    def _with_stat_fault(self, world, kind, op):
+        """The lookup of one entry's owner fails with a transient / access
+        error (not ENOENT) during the pass; biased to live holders."""
+        frng = self.frng
+        if kind == 'vip':
+            ref = dict(world.vip_ref)
+        elif kind == 'rule':
+            ref = dict(world.rule_ref)
+        else:
+            ref = {k: o for k, o in world.spec_ref.items() if len(k) == 6}
+        if not ref:
+            return op
+        keys = sorted(ref, key=repr)
+        live = [k for k in keys if world.spec_owner_live(ref[k])]
+        key = frng.choice(live) if live and frng.random() < 0.8 else \
+            frng.choice(keys)
+        if kind == 'vip':
+            name = key
+        elif kind == 'rule':
+            chain, spec = self._rule_of_key(key)
+            name = rulefile.RuleMgr._filenameify(chain, rule_from_spec(spec))
+        else:
+            name = '~'.join(key)
+        op['stat_fault'] = {'name': name, 'errno': frng.choice(
+            [errno.EIO, errno.ESTALE, errno.EACCES])}
         return op
 
     @staticmethod
@@ -1776,6 +1905,20 @@ class Generator:
 
     def g_svc_start(self, world):
         op = {'ord': self.order()}
+        if self.prop == 'C14' and \
+                self.frng.random() < self.config.get('p_stat_fault', 0.0):
+            # synchronize() ends with a GC pass over the service's vips
+            try:
+                ips = sorted(n for n in os.listdir(world.vips_dir)
+                             if not n.startswith('.'))
+            except OSError:
+                ips = []
+            if ips:
+                op['stat_fault'] = {'name': self.frng.choice(ips),
+                                    'errno': self.frng.choice(
+                                        [errno.EIO, errno.ESTALE,
+                                         errno.EACCES])}
+                return op
         return self._faults(op, 30, self.config['p_svc_kill'] * 0.5,
                             self.config['p_cmd_fail'])
 
@@ -1818,17 +1961,12 @@ class Generator:
                        if c['state'] == 'requested' and n in world.owners)
         if not names:
             return None
-        ready = [n for n in names if world.cont[n]['manifest']
-                 ['shared_network'] or world._reply_of(n) is not None]
-        if not ready and self.rng.random() < 0.85:
-            return None
-        name = self.rng.choice(ready) if ready and self.rng.random() < 0.9 \
-            else self.rng.choice(names)
+        name = self.rng.choice(names)
         man = world.cont[name]['manifest']
         self.pids += 1
         est = (len(man['endpoints']) * 5 + man['ephemeral_ports']['tcp'] * 2 +
                man['ephemeral_ports']['udp'] * 2 + len(man['passthrough']) +
-               3)
+               12)
         op = {'name': name, 'pid': self.pids,
               'rkey': self.rng.randint(1, 1 << 30), 'ord': self.order()}
         return self._faults(op, est, self.config['p_start_kill'],
@@ -1929,6 +2067,7 @@ def make_config(prop, tier, rng):
         for key in LAYOUT_KEYS:
             layout[key] = rng.random() < 0.4
     cfg['layout'] = layout
+    cfg['p_stat_fault'] = rng.choice([0.0, 0.1, 0.25])
     return cfg
 
 
@@ -1968,11 +2107,22 @@ class NetSim(enginemod.Engine):
         '(initialize, watcher, _check_requests, _on_created for each, '
         'synchronize; then process_events(MAX_REQUEST_PER_CYCLE) + '
         '_check_requests per svc_step op)',
-        'runtime.linux._run.run / _finish.finish / _cleanup outer bodies '
-        '(cgroup, localdisk, presence, image, rrd, archive): the harness '
-        'performs the network part in the same order (put, wait, '
-        'allocate_network_ports, save_app, _unshare_network; load_app_safe, '
-        '_cleanup_network)',
+        'runtime.linux._run.run is the real function from its first line '
+        'up to and including _unshare_network (resource requests, waits, '
+        'allocate_network_ports, save_app, _unshare_network in the code\'s '
+        'own order); it is stopped at _create_root_dir (stub raising), so '
+        'root volume, image unpack, mount clean-up, apphook, presence and '
+        'exec are not run; image.get_image is stubbed; the cgroup, localdisk '
+        'and presence services of tm_env are stand-ins that reply at once '
+        '(empty cgroup reply: nothing is joined); shared-network containers '
+        'do not go through run() (it would wait 15 min for a network reply '
+        'it never requested): ports + save_app only',
+        'services._base_service.wait_for_file (inotify wait with a real-time '
+        'timeout): while a client waits the harness lets the network service '
+        'process its events; timeout when the service is down or idle',
+        '_finish.finish / _cleanup outer bodies (presence, localdisk, cgroup, '
+        'rrd, archive): the harness calls load_app_safe and _cleanup_network '
+        'under the condition _cleanup uses',
         'treadmill.netdev: in-process device table (can fail with '
         'CalledProcessError)',
         'treadmill.iptables: ip-set tables as python sets, '
@@ -1995,6 +2145,9 @@ class NetSim(enginemod.Engine):
         'found an entry ownerless and the unlink() that reclaims it - '
         '"during": [{"window": <entry file name>, "ops": [...]}].  The ops '
         'are complete operations of other owners',
+        'lookup faults: stat()/lstat()/os.path.exists() of one named entry '
+        'fail with EIO/ESTALE/EACCES during a GC op or a service start '
+        '("stat_fault" in the op)',
         'clock (virtual); directory listing order (sorted, then permuted by '
         'the op); tempfile.mktemp in _base_service (counter)',
     )
@@ -2072,7 +2225,7 @@ class NetSim(enginemod.Engine):
 
     def quick_runs(self, prop):
         # ~10 s (C14) / ~13 s (C16) of CPU per core on 16 cores
-        return 8000 if prop == 'C14' else 6400
+        return 8000 if prop == 'C14' else 5200
 
     def make_config(self, prop, tier, rng):
         return make_config(prop, tier, rng)
@@ -2202,6 +2355,9 @@ class NetSim(enginemod.Engine):
         patches.set(_run, 'plugin_manager', world.pm)
         patches.set(_run, 'os', fsseam.SeamOS(
             seam, {'getpid': world.pid.getpid}))
+        patches.set(_run, 'image', _NoImage)
+        patches.set(_run, '_create_root_dir', _stop_after_network)
+        patches.set(_base_service, 'wait_for_file', world.wait_for_file)
         patches.set(_finish, 'iptables', world.ipt)
         patches.set(_finish, 'socket', world.sock)
         patches.set(_finish, 'plugin_manager', world.pm)
